@@ -530,6 +530,12 @@ class CallMixin:
         if is_sym(recv, "dt"):
             if name == "timestamp":
                 return [("val", Sym("real", dt_ts(recv.t)), st)]
+            if name == "replace" and set(kwargs) == {"tzinfo"} and isinstance(kwargs["tzinfo"], ExtRef) and kwargs["tzinfo"].name.split(".")[-1] in ("UTC", "utc"):
+                from .values import dt_off
+                d = fresh("dt", "replaced")  # same wall-clock fields, zone forced to UTC: the instant moves by the old offset
+                st.assume(dt_ts(d.t) == dt_ts(recv.t) + dt_off(recv.t))
+                st.assume(dt_off(d.t) == 0)
+                return [("val", d, st)]
         if is_sym(recv, "any"):
             return self.hooks.any_method(self, st, recv, name, args, kwargs)
         raise Unsupported(f"method {name} of {recv!r}")
